@@ -204,7 +204,10 @@ fn try_tzif(c: &Child, bytes: &[u8], sweep: &str, what: &dyn Fn() -> Value, tl: 
 
 fn try_string(c: &Child, s: &[u8], sweep: &str, tl: &mut Tally) {
     // settings path (needs UTF-8), v2 and v3 footers
-    for mode in 0..3 {
+    for mode in 0..4 {
+        if mode == 3 && std::str::from_utf8(s).is_err() {
+            continue;
+        }
         tl.evals += 1;
         let (r, peak) = measured(|| {
             guard(|| match mode {
@@ -212,6 +215,8 @@ fn try_string(c: &Child, s: &[u8], sweep: &str, tl: &mut Tally) {
                     Ok(st) => TimeZoneSettings::new(&[], fail_reader).parse_posix_tz(st).ok(),
                     Err(_) => None,
                 },
+                // with directories configured (a relative name is looked up and not found before the string is parsed)
+                3 => TimeZoneSettings::new(&["/nonexistent-a", "relative-b/"], fail_reader).parse_posix_tz(std::str::from_utf8(s).unwrap()).ok(),
                 1 => TimeZone::from_tz_data(&footer_file(b'2', s)).ok(),
                 _ => TimeZone::from_tz_data(&footer_file(b'3', s)).ok(),
             })
@@ -609,6 +614,29 @@ fn part_lengths(c: &Child, only_chunk: Option<&str>) -> Tally {
         let b = Block { trans: vec![(0, 0)], types: vec![(3600, 0, 0)], chars, ..Default::default() };
         try_tzif(c, &mtzif::file(0, &b, None, None), "lengths", &|| json!({"designation_len": l, "version": 1}), &mut tl);
         try_tzif(c, &mtzif::file(b'2', &small, Some(&b), Some(&s2)), "lengths", &|| json!({"designation_len": l, "version": 2}), &mut tl);
+        // values made of multi-byte characters, in every alignment relative to a byte position: as a name, quoted, and bare
+        if l <= 1100 {
+            for ch in ["\u{e9}", "\u{20ac}", "\u{1f600}"] {
+                let w = ch.len();
+                for p in 0..w {
+                    if l < p {
+                        continue;
+                    }
+                    let mut v = vec![b'A'; p];
+                    for _ in 0..(l - p) / w {
+                        v.extend_from_slice(ch.as_bytes());
+                    }
+                    let mut quoted = b"<".to_vec();
+                    quoted.extend_from_slice(&v);
+                    quoted.extend_from_slice(b">0");
+                    let mut named = b"Europe/Z".to_vec();
+                    named.extend_from_slice(&v);
+                    for s in [&v, &quoted, &named] {
+                        try_string(c, s, "lengths", &mut tl);
+                    }
+                }
+            }
+        }
     }
     c.leave(&id);
     tl
